@@ -33,6 +33,11 @@ def trim_ws(s):
     return s.strip("".join(WS))
 
 
+def zero_width(c):
+    import unicodedata
+    return unicodedata.category(c) in ("Mn", "Me", "Cf")
+
+
 def f64bits(n, d):
     x = (float(n) / float(d)) if d > 0 else 0.0
     return struct.pack(">d", x).hex()
@@ -96,7 +101,7 @@ def mutate_tokens(rng, toks):
 def finish_line(rng, toks):
     s = "".join(toks)
     r = rng.random()
-    return s + ("\n" if r < 0.85 else ("" if r < 0.95 else "\r\n"))
+    return s + ("\n" if r < 0.9 else ("" if r < 0.985 else "\r\n"))
 
 
 def gen_pair(rng):
@@ -336,7 +341,7 @@ def eval_case(rep, case, impl, model, dom, tok_ans=None):
         nontrivial = len(toks) > 2
         rep.case(key=("tok", case["regex"], case["line"]), nontrivial=nontrivial,
                  sample=dict(case, impl=impl))
-        if "".join(toks) != case["line"] or toks[0] != "":
+        if "".join(toks) != case["line"] or not toks or toks[0] != "":
             rep.violation("tokenize:not-a-partition", "tokens do not concatenate to the line / first token not empty",
                           dict(case, got=impl))
     elif op == "align":
@@ -471,9 +476,15 @@ def eval_infer(rep, case, impl):
         for a, b in pairs:
             for secs, e in ((am[a], D), (ap[b], I)):
                 for t, s in secs:
-                    if t == e and trim_ws(s) != "" and case.get("widths_nonzero", True):
-                        rep.violation("infer:distance-zero-pairs-differing-lines",
-                                      "with max-line-distance 0 a paired line has a non-whitespace emphasised section", replay)
+                    if t == e and trim_ws(s) != "":
+                        if all(zero_width(c) for c in trim_ws(s) if c not in WS):
+                            rep.violation("infer:distance-zero-pairs-zero-width-difference",
+                                          "with max-line-distance 0 two lines that differ by a zero-width "
+                                          "non-whitespace character are paired", replay)
+                        else:
+                            rep.violation("infer:distance-zero-pairs-differing-lines",
+                                          "with max-line-distance 0 a paired line has a non-whitespace emphasised section",
+                                          replay)
 
 
 # --------------------------------------------------------------------------- runs
@@ -506,7 +517,11 @@ def run_cases(ctx, rep, cases):
         ta = None
         if c["op"] == "annotate":
             ta = [tokans[tokidx[(c["regex"], c["minus"])]], tokans[tokidx[(c["regex"], c["plus"])]]]
-        eval_case(rep, c, i, m, dom, ta)
+        try:
+            eval_case(rep, c, i, m, dom, ta)
+        except Exception as ex:   # an answer the oracle cannot even parse is a failure of the implementation
+            rep.violation("oracle-exception:edits." + c["op"], f"unparseable answer ({type(ex).__name__}: {ex})",
+                          dict(c, got=i))
 
 
 def gen_cases(ctx):
@@ -527,16 +542,25 @@ def gen_cases(ctx):
         for y in seqs:
             cases.append(dict(op="align", x=x, y=y))
     # (b) random realistic lines
-    for _ in range(ctx.n(1500, 60000)):
+    def nfc_mostly(r, line):
+        # a regex that matches single scalar values splits decomposed clusters (outside the model's
+        # domain, DESIGN 3.1): keep a few such cases for the oracle, compose the rest
+        if r in (".", r"\w") and rng.random() < 0.9:
+            return line.replace("e\u0301", "\u00e9")
+        return line
+    for _ in range(ctx.n(1500, 100000)):
         a, b = gen_pair(rng)
         r = rng.choice(REGEXES + (EXTRA_REGEXES if rng.random() < 0.3 else []))
+        a, b = nfc_mostly(r, a), nfc_mostly(r, b)
         cases.append(dict(op="annotate", regex=r, minus=a, plus=b))
         if rng.random() < 0.2:
             cases.append(dict(op="tokenize", regex=r, line=a))
     # (c) subhunks
-    for _ in range(ctx.n(600, 20000)):
+    for _ in range(ctx.n(600, 30000)):
         minus, plus = gen_subhunk(rng)
         r = rng.choice(REGEXES)
+        if rng.random() < 0.9:
+            minus, plus = [nfc_mostly(r, l) for l in minus], [nfc_mostly(r, l) for l in plus]
         mx = rng.choice(THRESHOLDS) if rng.random() < 0.85 else ("0.%d" % rng.randint(1, 999))
         nv = "0.0" if rng.random() < 0.8 else rng.choice(["0.5", "1.0", "0.25"])
         cases.append(dict(op="infer", regex=r, max=mx, naive=nv, minus=minus, plus=plus,
@@ -563,15 +587,36 @@ def run(ctx, rep):
     ]
     load_costs()
     rep.notes["cost_constants"] = dict(COSTS)
-    cases = gen_cases(ctx)
+    cases = CORPUS + gen_cases(ctx)
     rep.exhaustive = dict(strings="len<=%d" % ctx.n(3, 4), token_sequences="len<=%d" % ctx.n(3, 4))
     run_cases(ctx, rep, cases)
-    # end_to_end(ctx, rep)
+    end_to_end(ctx, rep)
+
+
+CORPUS = [
+    # known finding: zero-width difference paired at threshold 0 (notes/C06.md)
+    dict(op="infer", regex=r"\w+", max="0", naive="0.0", minus=["a b\n"], plus=["a \u200bb\n"], mtags=[ND], ptags=[NI]),
+    # whitespace-only difference is paired at threshold 0
+    dict(op="infer", regex=r"\w+", max="0", naive="0.0", minus=["a b\n"], plus=["a  b\n"], mtags=[ND], ptags=[NI]),
+    # rejected candidates before a pair; per-line no-op tags
+    dict(op="infer", regex=r"\w+", max="0.6", naive="0.0", minus=["x y\n"], plus=["zzz\n", "x w\n"], mtags=[ND], ptags=[NI, 5]),
+    # delta's own examples (edits.rs tests)
+    dict(op="annotate", regex=r"\w+", minus="aaa bbb\n", plus="aaa ccc\n"),
+    dict(op="annotate", regex=r"\w+", minus="fn coalesce_edits<'a, EditOperation>(\n", plus="fn coalesce_edits<'a, 'b, EditOperation>(\n"),
+    dict(op="annotate", regex=r"\w+", minus="for _ in range(0, options[\"count\"]):\n",
+         plus="for _ in range(0, int(options[\"count\"])):\n"),
+    dict(op="annotate", regex=r"\w+", minus=" a a\n", plus=" a b a\n"),
+]
 
 
 def replay(ctx, rep, obj):
+    load_costs()
     case = obj.get("case") or {}
-    case = {k: v for k, v in case.items() if k not in ("got",)}
+    case = {k: v for k, v in case.items() if k not in ("got", "stderr")}
+    if case.get("op") == "e2e":
+        body = "".join("-" + l + "\n" for l in case["minus"]) + "".join("+" + l + "\n" for l in case["plus"])
+        diff = "diff --git a/f b/f\n--- a/f\n+++ b/f\n@@ -1,%d +1,%d @@\n" % (len(case["minus"]), len(case["plus"])) + body
+        return end_to_end(ctx, rep, [(case["minus"], case["plus"], case["max"], diff)])
     if "op" not in case:
         # a tie-broken replay names theorems / correspondence ops: re-run the whole check
         return run(ctx, rep)
@@ -580,96 +625,136 @@ def replay(ctx, rep, obj):
 
 # --------------------------------------------------------------------------- end to end
 
-E2E_ARGS = ["--minus-style", "normal 1", "--minus-emph-style", "normal 2", "--minus-non-emph-style", "normal 3",
+# one reserved background colour per role (DESIGN 3.4 verification palette)
+BG = dict(minus=1, minus_emph=2, minus_non_emph=3, plus=4, plus_emph=5, plus_non_emph=6, zero=7, ws_error=9)
+E2E_ARGS = ["--no-gitconfig",
+            "--minus-style", "normal 1", "--minus-emph-style", "normal 2", "--minus-non-emph-style", "normal 3",
             "--plus-style", "normal 4", "--plus-emph-style", "normal 5", "--plus-non-emph-style", "normal 6",
             "--zero-style", "normal 7", "--whitespace-error-style", "normal 9", "--syntax-theme", "none",
-            "--file-style", "omit", "--hunk-header-style", "omit", "--width", "500", "--true-color", "never",
-            "--line-numbers-left-format", "", "--line-numbers-right-format", "", "--no-gitconfig"]
-SGR = re.compile(r"\x1b\[([0-9;]*)m")
+            "--file-style", "omit", "--hunk-header-style", "omit", "--width", "variable", "--true-color", "never",
+            "--tabs", "0"]
+SGR = re.compile(r"\x1b\[([0-9;]*)([mK])")
 
 
 def decode_row(row):
-    """[(background colour index or None, char)] of one output row (256-colour backgrounds `48;5;n`)."""
+    """[(background colour index or None, char)] of one output row (16/256-colour backgrounds)."""
     out, bg, pos = [], None, 0
     for m in SGR.finditer(row):
         out.extend((bg, ch) for ch in row[pos:m.start()])
         pos = m.end()
-        ps = [p for p in m.group(1).split(";")]
+        if m.group(2) == "K":
+            continue
+        ps = m.group(1).split(";")
         k = 0
-        if ps == [""] or ps == ["0"]:
-            bg = None
         while k < len(ps):
-            if ps[k] == "0" or ps[k] == "":
+            q = ps[k]
+            if q == "" or q == "0":
                 bg = None
-            elif ps[k] == "48" and k + 2 < len(ps) and ps[k + 1] == "5":
+            elif q == "48" and k + 2 < len(ps) and ps[k + 1] == "5":
                 bg = int(ps[k + 2]); k += 2
-            elif ps[k] == "38" and k + 2 < len(ps) and ps[k + 1] == "5":
+            elif q == "38" and k + 2 < len(ps) and ps[k + 1] == "5":
                 k += 2
-            elif ps[k] == "49":
+            elif q == "49":
                 bg = None
-            elif ps[k].isdigit() and 40 <= int(ps[k]) <= 47:
-                bg = int(ps[k]) - 40
-            elif ps[k].isdigit() and 100 <= int(ps[k]) <= 107:
-                bg = int(ps[k]) - 100 + 8
+            elif q.isdigit() and 40 <= int(q) <= 47:
+                bg = int(q) - 40
+            elif q.isdigit() and 100 <= int(q) <= 107:
+                bg = int(q) - 100 + 8
             k += 1
     out.extend((bg, ch) for ch in row[pos:])
     return out
 
 
-def end_to_end(ctx, rep):
-    """The real binary on one-subhunk diffs: emphasis decoded from stdout (background colours
-    reserved per role), then the C06 statement on what is displayed."""
+def e2e_line(rng):
+    while True:
+        s = "".join(gen_tokens(rng, rng.randint(1, 6)))
+        s = re.sub(r"[\r\n\t​́]", "", s)
+        if s.strip() and s[0] not in "-+\\" :
+            return s
+
+
+def e2e_job(rng):
+    m, p = rng.randint(0, 4), rng.randint(0, 4)
+    if m + p == 0:
+        m = 1
+    pool = [e2e_line(rng) for _ in range(3)]
+
+    def one():
+        r = rng.random()
+        base = rng.choice(pool)
+        if r < 0.3:
+            return base
+        if r < 0.8:
+            toks = re.findall(r"\w+|\W", base)
+            s = re.sub(r"[\r\n\t​́]", "", "".join(mutate_tokens(rng, toks)))
+            return s if (s.strip() and s[0] not in "-+\\") else base
+        return e2e_line(rng)
+    minus, plus = [one() for _ in range(m)], [one() for _ in range(p)]
+    mx = rng.choice(THRESHOLDS)
+    body = "".join("-" + l + "\n" for l in minus) + "".join("+" + l + "\n" for l in plus)
+    diff = "diff --git a/f b/f\n--- a/f\n+++ b/f\n@@ -1,%d +1,%d @@\n" % (len(minus), len(plus)) + body
+    return minus, plus, mx, diff
+
+
+def end_to_end(ctx, rep, jobs=None):
+    """The real binary on one-subhunk diffs: emphasis decoded from stdout (one reserved background
+    colour per role), then the C06 statement on what is displayed."""
     rng = ctx.rng
-    jobs = []
-    for _ in range(ctx.n(60, 3000)):
-        minus, plus = gen_subhunk(rng)
-        minus = [l for l in (re.sub(r"[\r\n\t​]", "", x) for x in minus)]
-        plus = [l for l in (re.sub(r"[\r\n\t​]", "", x) for x in plus)]
-        if not minus and not plus:
-            continue
-        mx = rng.choice(THRESHOLDS)
-        body = "".join("-" + l + "\n" for l in minus) + "".join("+" + l + "\n" for l in plus)
-        diff = ("diff --git a/f b/f\n--- a/f\n+++ b/f\n@@ -1,%d +1,%d @@\n" % (len(minus), len(plus))) + body
-        jobs.append((minus, plus, mx, diff))
+    if jobs is None:
+        jobs = [e2e_job(rng) for _ in range(ctx.n(150, 8000))]
 
     def one(job):
         minus, plus, mx, diff = job
         return ctx.run_delta(E2E_ARGS + ["--max-line-distance", mx], diff.encode())
+    M, ME, MN = BG["minus"], BG["minus_emph"], BG["minus_non_emph"]
+    P, PE, PN, WE = BG["plus"], BG["plus_emph"], BG["plus_non_emph"], BG["ws_error"]
     for (minus, plus, mx, diff), (rc, out, err) in zip(jobs, parallel_map(one, jobs)):
         replay = dict(op="e2e", minus=minus, plus=plus, max=mx)
         if rc != 0:
-            rep.violation("e2e:exit-status", f"delta exited with {rc}", dict(replay, stderr=err.decode("utf-8", "replace")[-300:]))
+            rep.violation("e2e:exit-status", f"delta exited with {rc}",
+                          dict(replay, stderr=err.decode("utf-8", "replace")[-300:]))
             continue
         rows = [decode_row(r) for r in out.decode("utf-8", "replace").split("\n")]
-        mrows = [r for r in rows if any(bg in (1, 2, 3) for bg, _ in r)]
-        prows = [r for r in rows if any(bg in (4, 5, 6, 9) for bg, _ in r)]
+        mrows = [r for r in rows if any(bg in (M, ME, MN) for bg, _ in r)]
+        prows = [r for r in rows if any(bg in (P, PE, PN, WE) for bg, _ in r)]
 
         def vis(r, cols):
             return "".join(ch for bg, ch in r if bg in cols)
-        ok = [vis(r, (1, 2, 3)).rstrip(" ") for r in mrows] == [l.rstrip(" ") for l in minus if True] and \
-            [vis(r, (4, 5, 6, 9)).rstrip(" ") for r in prows] == [l.rstrip(" ") for l in plus]
-        rep.case(key=("e2e", mx, tuple(minus), tuple(plus)),
-                 nontrivial=any(bg in (2, 5) for r in rows for bg, _ in r), sample=None)
-        rep.count("e2e:" + ("rows-decoded" if ok else "rows-not-decoded"))
-        if not ok:
+        decoded = [vis(r, (M, ME, MN)) for r in mrows] == minus and [vis(r, (P, PE, PN, WE)) for r in prows] == plus
+        emph_seen = any(bg in (ME, PE) for r in rows for bg, _ in r)
+        rep.case(key=("e2e", mx, tuple(minus), tuple(plus)), nontrivial=emph_seen,
+                 sample=dict(replay, rows=len(rows)) if emph_seen else None)
+        rep.count("e2e:" + ("rows-decoded" if decoded else "rows-not-decoded"))
+        if not decoded:
             continue
-        # a line is shown as paired iff it has non-emph-style (3 / 6) or emph (2 / 5) cells
-        def paired(r, emph, non):
-            return any(bg in (emph, non) for bg, _ in r)
-        mp = [r for r in mrows if paired(r, 2, 3)]
-        pp = [r for r in prows if paired(r, 5, 6)]
-        for r in mrows + prows:
-            if not paired(r, 2, 3) and not paired(r, 5, 6) and any(bg in (2, 5) for bg, _ in r):
-                rep.violation("e2e:unpaired-emphasised", "a line without partner shows emphasis", replay)
+        # a line has a partner iff delta used the non-emph or emph style on it
+        mp = [(k, r) for k, r in enumerate(mrows) if any(bg in (ME, MN) for bg, _ in r)]
+        pp = [(k, r) for k, r in enumerate(prows) if any(bg in (PE, PN) for bg, _ in r)]
+        # a plus line made of whitespace-error cells only cannot be classified: skip such cases
+        if any(all(bg == WE for bg, _ in r if bg is not None) for r in prows):
+            rep.count("e2e:ws-error-only-line")
+            continue
+        for _, r in mp:
+            if any(bg == M for bg, _ in r):
+                rep.violation("e2e:mixed-styles", "a removed line mixes the unpaired style with emph/non-emph", replay)
+        for _, r in pp:
+            if any(bg == P for bg, _ in r):
+                rep.violation("e2e:mixed-styles", "an added line mixes the unpaired style with emph/non-emph", replay)
         if len(mp) != len(pp):
-            # a pair of identical lines has neither emph nor non-emph on one side only if both lack it
-            rep.count("e2e:pair-count-differs")
+            rep.violation("e2e:pair-count", "different numbers of paired removed and added lines are displayed", replay)
             continue
-        for a, b in zip(mp, pp):
-            ka = "".join(ch for bg, ch in a if bg in (1, 3))
-            kb = "".join(ch for bg, ch in b if bg in (4, 6, 9) )
-            ea = "".join(ch for bg, ch in a if bg == 2)
-            if ka.rstrip(" ") != kb.rstrip(" "):
-                # whitespace-error cells (9) may hide emphasis on trailing whitespace: compare modulo trailing blanks
+        rep.count("e2e:pairs=%d" % min(len(mp), 3))
+        for (ka, a), (kb, b) in zip(mp, pp):
+            keep_a = vis(a, (MN,))
+            keep_b = vis(b, (PN,))
+            # whitespace-error cells are trailing whitespace (emphasised or not): compare modulo trailing blanks
+            if rtrim_ws(keep_a) != rtrim_ws(keep_b):
                 rep.violation("e2e:unsound-emphasis",
                               "displayed non-emphasised text differs between the two lines of a pair", replay)
+            if minus[ka] == plus[kb] and (any(bg == ME for bg, _ in a) or any(bg == PE for bg, _ in b)):
+                rep.violation("e2e:identical-lines-emphasised", "identical paired lines show emphasis", replay)
+        if float(mx) >= 1.0:
+            want = list(range(min(len(minus), len(plus))))
+            if [k for k, _ in mp] != want or [k for k, _ in pp] != want:
+                rep.violation("e2e:distance-one-not-positional",
+                              "with max-line-distance >= 1 the displayed pairs are not (i, i)", replay)
